@@ -268,12 +268,12 @@ def _group_silence_reconnect(ctx, p):
 
 def _error_text_lost(ctx, p):
     """An AC reports an error; the client asks for the error text; the link is lost at a free instant before the console's
-    answer (which takes 100 ms) has arrived. After the reconnection the model converges to what the console reports then:
+    answer (which takes 125 ms) has arrived. After the reconnection the model converges to what the console reports then:
     the error code and its text."""
     g = Gen(p["gen"])
     inst = Installation.simple(g.n, n_acs=2, zones_per_ac=2)
     inst.errors[0] = "ER: 0005"
-    t_drop = 1.0 + ctx.real("dt", 0, 0.1, lo_strict=True)
+    t_drop = 1.0 + ctx.real("dt", 0, 0.125, lo_strict=True)
     with ApiRig(ctx, g, inst) as rig:
         con = rig.console
         rig.start()
@@ -283,7 +283,7 @@ def _error_text_lost(ctx, p):
 
         def slow_answer(conn, kind, fr):
             if kind == "error":
-                rig.loop.call_later(0.1, orig_answer, conn, kind, fr)
+                rig.loop.call_later(0.125, orig_answer, conn, kind, fr)
             else:
                 orig_answer(conn, kind, fr)
 
